@@ -222,6 +222,59 @@ pub fn run_case(c: &C19Case, _n: u64) -> Verdict {
     }
 }
 
+/// End-to-end use of the semaphore as the open-file budget: `files` identical files of 70 000 bytes
+/// (two hashing stages) plus a few others, hashed by `threads`-thread pools while RLIMIT_NOFILE is
+/// `nofile` (budget = nofile - 5 permits, fewer than the threads) and every read of a tree file sleeps
+/// `delay_ms` (interposer), so that every worker keeps its file open for a while. The budget holds iff
+/// no open fails with EMFILE: all files must be reported in one group and stderr must not mention
+/// "Too many open files".
+#[derive(Clone, Debug, Serialize, Deserialize)]
+pub struct BudgetCase {
+    pub budget_files: u32,
+    pub threads: u32,
+    pub nofile: u32,
+    pub delay_ms: u32,
+}
+
+pub fn run_budget(c: &BudgetCase, n: u64) -> Verdict {
+    use crate::run::*;
+    if !std::path::Path::new(SHIM).exists() || !std::path::Path::new("/usr/bin/prlimit").exists() {
+        return Verdict::Discard("no-shim-or-prlimit".into());
+    }
+    let cd = CaseDir::new("c19b", n, Fs::Tmpfs);
+    let r = cd.tree().join("r");
+    let _ = std::fs::create_dir_all(&r);
+    let bytes = crate::util::class_bytes(5, 70_000);
+    for i in 0..c.budget_files {
+        let _ = std::fs::write(r.join(format!("f{:03}", i)), &bytes);
+    }
+    for i in 0..4u32 {
+        let _ = std::fs::write(r.join(format!("other{}", i)), crate::util::class_bytes(6 + i, 70_000));
+    }
+    let a: Vec<std::ffi::OsString> = vec![format!("--nofile={0}:{0}", c.nofile).into(), FCLONES_BIN.into(), "group".into(), "--threads".into(), c.threads.to_string().into(), "r".into()];
+    let run = Run::program(&cd, "/usr/bin/prlimit")
+        .args(&a)
+        .env("LD_PRELOAD", SHIM)
+        .env("FCV_ROOT", cd.tree())
+        .env("FCV_READ_DELAY_US", (c.delay_ms * 1000).to_string())
+        .env("FCLONES_VERIF_DISK_KIND", "ssd");
+    let cmd = format!("FCV_READ_DELAY_US={} prlimit --nofile={}:{} fclones group --threads {} r   ({} identical files)", c.delay_ms * 1000, c.nofile, c.nofile, c.threads, c.budget_files);
+    let out = run.run();
+    if out.timed_out {
+        return Verdict::Inconclusive("timeout".into());
+    }
+    let listed = String::from_utf8_lossy(&out.stdout).lines().filter(|l| l.starts_with("    ") && l.contains("/r/f")).count() as u32;
+    let emfile = out.stderr_s().contains("Too many open files");
+    if !out.ok() || emfile || listed != c.budget_files {
+        return Verdict::Fail {
+            clause: "open-file-budget-exceeded".into(),
+            detail: format!("{}\n{} of {} identical files reported; 'Too many open files' on stderr: {}\n{}", cmd, listed, c.budget_files, emfile, out.brief()),
+            sig: vec![],
+        };
+    }
+    Verdict::Pass { nontrivial: c.threads + 5 > c.nofile, classes: vec!["open-file-budget-end-to-end".into()] }
+}
+
 pub fn check(tier: Tier) -> i32 {
     let ctx = Ctx::new("C19", tier);
     std::panic::set_hook(Box::new(|_| {}));
@@ -247,16 +300,22 @@ pub fn check(tier: Tier) -> i32 {
         })
     };
     drive(&ctx, "dfs", tier.pick(48, 300), small, run_case);
+    // end to end: the same semaphore as the open-file budget of the real binary
+    let budget: Vec<BudgetCase> = (0..tier.pick(4u32, 16u32)).map(|i| BudgetCase { budget_files: 120 + 10 * (i % 4), threads: 128, nofile: 80 + (i % 3) * 8, delay_ms: 25 + 10 * (i % 2) }).collect();
+    drive_list(&ctx, budget, run_budget);
     ctx.set_extra("schedules_executed", json!(SCHEDULES.load(Ordering::Relaxed)));
     ctx.set_extra("schedules_with_a_probably_blocking_acquire", json!(BLOCKING_SCHEDULES.load(Ordering::Relaxed)));
     ctx.finish(
         "exploration",
-        "the real fclones/src/semaphore.rs compiled against shuttle's Mutex/Condvar/Arc (harness/build.rs swaps the import line and fails the build if it is not found). Generated programs: 0-2 initial permits, 2-4 threads with 1-3 steps each from {acquire..release on the same thread, acquire an owned guard and hand it to a dropper thread that releases it, release-only}, plus a chaos thread issuing 0-3 unsolicited notify_one/notify_all (observationally spurious wake-ups); programs are deadlock-free for the abstract counting semaphore by construction. Each program runs under 400 (quick) / 4000 (thorough) random or PCT(depth 3) schedules with a generated seed, and the 2-thread x <=2-step programs under exhaustive DFS (bounded at 200000 schedules). Oracle: at every return from acquire the number of holders is <= initial + releases-only so far; shuttle's deadlock detector never fires; after joining all threads the internal count equals initial + #release-only. evaluations = programs; schedules are counted in coverage.schedules_executed. Non-trivial = a program with a schedule in which an acquire found the count <= 0 (so it had to wait).",
+        "the real fclones/src/semaphore.rs compiled against shuttle's Mutex/Condvar/Arc (harness/build.rs swaps the import line and fails the build if it is not found). Generated programs: 0-2 initial permits, 2-4 threads with 1-3 steps each from {acquire..release on the same thread, acquire an owned guard and hand it to a dropper thread that releases it, release-only}, plus a chaos thread issuing 0-3 unsolicited notify_one/notify_all (observationally spurious wake-ups); programs are deadlock-free for the abstract counting semaphore by construction. Each program runs under 400 (quick) / 4000 (thorough) random or PCT(depth 3) schedules with a generated seed, and the 2-thread x <=2-step programs under exhaustive DFS (bounded at 200000 schedules). Oracle: at every return from acquire the number of holders is <= initial + releases-only so far; shuttle's deadlock detector never fires; after joining all threads the internal count equals initial + #release-only. evaluations = programs; schedules are counted in coverage.schedules_executed. Non-trivial = a program with a schedule in which an acquire found the count <= 0 (so it had to wait). End-to-end complement: the real binary hashes 120-150 identical 70 kB files with 128-thread pools under `prlimit --nofile=80..96` while every read of a tree file sleeps 25-35 ms (interposer): every file must be reported and no open may fail with EMFILE (the budget is nofile - 5 permits).",
         &["shuttle's Condvar does not produce spurious wake-ups by itself; unsolicited notifications stand in for them", "the instrumented copy is textually the pinned file except for the import line and the removed unit tests"],
     )
 }
 
 pub fn replay(file: &std::path::Path) -> i32 {
+    if load_case::<BudgetCase>(file).is_some() {
+        return replay_one::<BudgetCase, _>("C19", file, run_budget);
+    }
     std::panic::set_hook(Box::new(|_| {}));
     replay_one::<C19Case, _>("C19", file, run_case)
 }
